@@ -5,7 +5,8 @@ ONLY property statements and non-vacuity examples live here; lemmas are in Proof
 Every theorem quantifies over ALL build histories `ops : List Op` (AddNode / AddEdge in any order, arbitrary
 natural ids, self loops, parallel and antiparallel edges, isolated and repeated nodes, duplicate edge ids).
 `G.ofOps ops` is the ground truth edge list; containers are compared as SETS per (node, direction).
-`fixed = false` is the code as it is, `fixed = true` the repair of hooks/C14-fix.patch.
+`fixed = true` selects the definitions of the code AS IT IS NOW (F2 repaired in /repo by 789c790, `Edge.Other`);
+`fixed = false` the definitions before that repair — only the `…_old` theorems talk about those.
 -/
 import Dawgs.Proofs.C14Glue
 namespace Dawgs.C14.Props
@@ -63,20 +64,20 @@ private theorem ts_spec (fixed : Bool) (ops : List Op) (dels : List Nat) (v : Na
     exact this
   rw [this]; simp
 
-/-- what holds of the code as it is: outbound and inbound. -/
-theorem ts_adj_eq_partial (ops : List Op) (dels : List Nat) (v : Nat) (d : Dir) (hd : d ≠ .both) :
+/-- the code before 789c790: outbound and inbound only. -/
+theorem ts_adj_eq_old_partial (ops : List Op) (dels : List Nat) (v : Nat) (d : Dir) (hd : d ≠ .both) :
     SetEq ((tsOf ops dels).adjacent false v d) (((G.ofOps ops).dropEdges dels).adj v d) :=
   ts_spec false ops dels v d (Or.inl hd)
 
-/-- DESIGN §5 F2: FALSE of the current code — one edge 1→2: `adjacent(1, both) ∋ 1`. -/
-theorem ts_adj_both_refuted : ¬ TsPresents false := by
+/-- DESIGN §5 F2 (repaired): FALSE of the code before 789c790 — one edge 1→2: `adjacent(1, both) ∋ 1`. -/
+theorem ts_adj_both_refuted_old : ¬ TsPresents false := by
   intro h
   have h1 : 1 ∈ (tsOf [.edge 10 1 2] []).adjacent false 1 .both := by decide
   have h2 := (h [.edge 10 1 2] [] 1 .both 1).mp h1
   revert h2; decide
 
-/-- the repaired `adjacent` (`Edge.Other`) presents the graph in all three directions. -/
-theorem ts_adj_eq_fixed : TsPresents true :=
+/-- the triple store (any tombstones) presents the graph in all three directions. -/
+theorem ts_adj_eq : TsPresents true :=
   fun ops dels v d => ts_spec true ops dels v d (Or.inr rfl)
 
 /-- FULL statement for projections: for all deleted-node and deleted-edge sets, the projection presents the
@@ -84,27 +85,36 @@ edge list minus those edges and minus every edge touching a deleted node. -/
 def ProjPresents (fixed : Bool) : Prop :=
   ∀ ops dn de, Presents (Proj.adjacent fixed ⟨TS.build ops, dn, de⟩) ((G.ofOps ops).project dn de)
 
-theorem proj_adj_eq_partial (ops : List Op) (dn de : List Nat) (v : Nat) (d : Dir) (hd : d ≠ .both) :
+/-- the code before 789c790: outbound and inbound only. -/
+theorem proj_adj_eq_old_partial (ops : List Op) (dn de : List Nat) (v : Nat) (d : Dir) (hd : d ≠ .both) :
     SetEq (Proj.adjacent false ⟨TS.build ops, dn, de⟩ v d) (((G.ofOps ops).project dn de).adj v d) :=
   fun y => Proj.adjacent_spec (TS.rel_build ops) false dn de v y d (Or.inl hd)
 
-/-- DESIGN §5 F2: FALSE of the current code — `Pick(both)` returns `Start`: edge 1→2, `both(1) = {1}`. -/
-theorem proj_adj_both_refuted : ¬ ProjPresents false := by
+/-- DESIGN §5 F2 (repaired): FALSE of the code before 789c790 — `Pick(both)` returned `Start`: edge 1→2, `both(1) = {1}`. -/
+theorem proj_adj_both_refuted_old : ¬ ProjPresents false := by
   intro h
   have h1 : 2 ∈ ((G.ofOps [.edge 10 1 2]).project [] []).adj 1 .both := by decide
   have h2 := (h [.edge 10 1 2] [] [] 1 .both 2).mpr h1
   revert h2; decide
 
-theorem proj_adj_eq_fixed : ProjPresents true :=
+/-- every projection of a store built without `DeleteEdge` presents the projected graph, all three directions. -/
+theorem proj_adj_eq : ProjPresents true :=
   fun ops dn de v d y => Proj.adjacent_spec (TS.rel_build ops) true dn de v y d (Or.inr rfl)
 
-/-- additional finding (not F2): a projection ignores the origin's `DeleteEdge` tombstones. -/
+/-- KNOWN FINDING (C14:triplestoreProjection.EachAdjacentEdge:ignores-origin-DeleteEdge), precise statement:
+a projection of a store WITH tombstones presents the projected graph of the un-tombstoned edge list — the
+origin's `DeleteEdge` set is ignored (`EachAdjacentEdge`/`EachEdge` never consult it) … -/
+theorem proj_tombstone_partial (ops : List Op) (dels dn de : List Nat) :
+    Presents (Proj.adjacent true ⟨tsOf ops dels, dn, de⟩) ((G.ofOps ops).project dn de) :=
+  fun v d y => Proj.adjacent_spec (TS.deleteAll_rel (TS.rel_build ops) dels) true dn de v y d (Or.inr rfl)
+
+/-- … and therefore does NOT present the graph the store itself presents (`ts_adj_eq`): edge 10: 1→2,
+`DeleteEdge(10)`: the store says `out(1) = ∅`, its empty projection says `out(1) = {2}`. -/
 theorem proj_tombstone_refuted :
-    ¬ ∀ ops dels dn de v, SetEq (Proj.adjacent false ⟨tsOf ops dels, dn, de⟩ v .out)
-        ((((G.ofOps ops).dropEdges dels).project dn de).adj v .out) := by
+    ¬ ∀ ops dels dn de, Presents (Proj.adjacent true ⟨tsOf ops dels, dn, de⟩) (((G.ofOps ops).dropEdges dels).project dn de) := by
   intro h
-  have h1 : 2 ∈ Proj.adjacent false ⟨tsOf [.edge 10 1 2] [10], [], []⟩ 1 .out := by decide
-  have h2 := (h [.edge 10 1 2] [10] [] [] 1 2).mp h1
+  have h1 : 2 ∈ Proj.adjacent true ⟨tsOf [.edge 10 1 2] [10], [], []⟩ 1 .out := by decide
+  have h2 := (h [.edge 10 1 2] [10] [] [] 1 .out 2).mp h1
   revert h2; decide
 
 /-- node sets and `NumNodes`: every container lists each node of the graph exactly once (isolated nodes and
@@ -164,19 +174,21 @@ private theorem containers_ok (fixed : Bool) (ops : List Op) (dels dn de : List 
   · exact ⟨fun v w => Proj.adjacent_spec (TS.rel_build ops) fixed dn de v w d hgood, G.closed_project hcl dn de,
       fun n h => (Proj.mem_nodes (TS.rel_build ops) dn de n).mpr h⟩
 
-/-- `Reach` from any container equals true reachability: run with fuel `NumNodes + 1` it terminates and
+/-- (generic in the code version; `reach_eq` below is the statement about the code as it is)
+`Reach` from any container equals true reachability: run with fuel `NumNodes + 1` it terminates and
 returns exactly the nodes reachable from `s` in ≥ 1 step of the ground-truth graph (so `s` itself only when it
 lies on a cycle — what container.Reach's own tests expect). -/
-theorem reach_eq (fixed : Bool) (ops : List Op) (dels dn de : List Nat) (d : Dir) (hgood : d ≠ .both ∨ fixed = true) (s : Nat) :
+theorem reach_eq_gen (fixed : Bool) (ops : List Op) (dels dn de : List Nat) (d : Dir) (hgood : d ≠ .both ∨ fixed = true) (s : Nat) :
     ∀ c ∈ containers fixed ops dels dn de,
       ∃ r, reach (fun v => c.1 v d) (c.2.2.length + 1) s = some r ∧ ∀ w, w ∈ r ↔ Reachable (fun v => c.2.1.adj v d) s w := by
   intro c hc
   obtain ⟨h1, h2, h3⟩ := containers_ok fixed ops dels dn de d hgood c hc
   exact reach_of_presents (fun v => c.1 v d) c.2.1 d h1 h2 c.2.2 h3 s
 
-/-- `BFSTree` from any container: terminates with fuel `NumNodes + 1`; reports each ≥1-step reachable node
+/-- (generic in the code version; `bfsTree_dist_eq` below is the statement about the code as it is)
+`BFSTree` from any container: terminates with fuel `NumNodes + 1`; reports each ≥1-step reachable node
 exactly once, with the length of a SHORTEST walk of the ground-truth graph. -/
-theorem bfsTree_dist_eq (fixed : Bool) (ops : List Op) (dels dn de : List Nat) (d : Dir) (hgood : d ≠ .both ∨ fixed = true) (s : Nat) :
+theorem bfsTree_dist_eq_gen (fixed : Bool) (ops : List Op) (dels dn de : List Nat) (d : Dir) (hgood : d ≠ .both ∨ fixed = true) (s : Nat) :
     ∀ c ∈ containers fixed ops dels dn de,
       ∃ ts, bfsTree (fun v => c.1 v d) (c.2.2.length + 1) s = some ts ∧ (ts.map (·.node)).Nodup ∧
         (∀ w, (∃ t ∈ ts, t.node = w) ↔ Reachable (fun v => c.2.1.adj v d) s w) ∧
@@ -184,6 +196,20 @@ theorem bfsTree_dist_eq (fixed : Bool) (ops : List Op) (dels dn de : List Nat) (
   intro c hc
   obtain ⟨h1, h2, h3⟩ := containers_ok fixed ops dels dn de d hgood c hc
   exact bfs_of_presents (fun v => c.1 v d) c.2.1 d h1 h2 c.2.2 h3 s
+
+/-- `Reach` from every container of the code as it is, all three directions. -/
+theorem reach_eq (ops : List Op) (dels dn de : List Nat) (d : Dir) (s : Nat) :
+    ∀ c ∈ containers true ops dels dn de,
+      ∃ r, reach (fun v => c.1 v d) (c.2.2.length + 1) s = some r ∧ ∀ w, w ∈ r ↔ Reachable (fun v => c.2.1.adj v d) s w :=
+  reach_eq_gen true ops dels dn de d (Or.inr rfl) s
+
+/-- `BFSTree` from every container of the code as it is, all three directions: shortest walk lengths. -/
+theorem bfsTree_dist_eq (ops : List Op) (dels dn de : List Nat) (d : Dir) (s : Nat) :
+    ∀ c ∈ containers true ops dels dn de,
+      ∃ ts, bfsTree (fun v => c.1 v d) (c.2.2.length + 1) s = some ts ∧ (ts.map (·.node)).Nodup ∧
+        (∀ w, (∃ t ∈ ts, t.node = w) ↔ Reachable (fun v => c.2.1.adj v d) s w) ∧
+        (∀ t ∈ ts, IsDist (fun v => c.2.1.adj v d) s t.node t.dist) :=
+  bfsTree_dist_eq_gen true ops dels dn de d (Or.inr rfl) s
 
 /-- `Normalize` (adjacency map and CSR) is an isomorphism onto ids `0..n-1`: the reverse index lists every
 node once, and `j` is a neighbour of normal node `i` iff `rev[j]` is a neighbour of `rev[i]` in the ground truth. -/
@@ -235,10 +261,193 @@ theorem segment_roundtrip (s : List Seg) (hne : s ≠ []) (h64 : ∀ x ∈ s, x.
         have := ih (by simp)
         omega
 
+/-! ### TSDFS / TSBFS / TSStatelessBFS -/
+
+/-- Hypothesis under which the triple-store traversals terminate: a positive depth bound, or a rank function on
+nodes that strictly decreases along every filter-admitted step (a certificate that the filtered graph is
+acyclic). The excluded point — an admitted cycle with `maxDepth ≤ 0` — is the documented non-termination of
+the real loops (they keep no visited set). -/
+def Terminates (g : G) (d : Dir) (admits : Edge → Bool) (maxDepth : Int) : Prop :=
+  maxDepth > 0 ∨ ∃ rk : Nat → Nat, ∀ n e, e ∈ g.incident n d → admits e = true → rk (e.other n) < rk n
+
+/-- the `Triplestore`s the traversals run on, each with the graph whose walks it must enumerate: the store
+itself — with ANY tombstones: `EachAdjacentEdge` ignores `DeleteEdge`, so it is the un-tombstoned edge list (the
+known finding, stated precisely) — and every projection of it. -/
+def tsContainers (ops : List Op) (dels dn de : List Nat) : List ((Nat → Dir → List Edge) × G) :=
+  [ ((tsOf ops dels).adjacentEdges, G.ofOps ops),
+    (Proj.adjacentEdges ⟨tsOf ops dels, dn, de⟩, (G.ofOps ops).project dn de) ]
+
+private theorem tsContainers_incident (ops : List Op) (dels dn de : List Nat) :
+    ∀ c ∈ tsContainers ops dels dn de, ∀ n d, c.1 n d = c.2.incident n d := by
+  have r := TS.deleteAll_rel (TS.rel_build ops) dels
+  intro c hc
+  simp only [tsContainers, List.mem_cons, List.not_mem_nil, or_false] at hc
+  rcases hc with rfl | rfl
+  · exact fun n d => TS.adjacentEdges_eq r n d
+  · exact fun n d => Proj.adjacentEdges_eq r dn de n d
+
+private theorem ts_traverse_leaves_eq (bfs : Bool) (ops : List Op) (dels dn de : List Nat) (d : Dir) (filt : Edge → Bool)
+    (maxDepth : Int) (root : Nat) :
+    ∀ c ∈ tsContainers ops dels dn de, Terminates c.2 d filt maxDepth →
+      ∃ F fuel0,
+        (∀ F', F ≤ F' → maxWalks c.2 d filt maxDepth Edge.other F' [⟨root, 0⟩] = maxWalks c.2 d filt maxDepth Edge.other F [⟨root, 0⟩]) ∧
+        ∀ fuel, fuel0 ≤ fuel → ∃ out inc,
+          tsTraverse bfs true (fun n => c.1 n d) d filt maxDepth fuel root = some (out, inc) ∧
+          out.Perm (maxWalks c.2 d filt maxDepth Edge.other F [⟨root, 0⟩]) ∧
+          inc = (out.filter (segExceeded maxDepth)).length := by
+  intro c hc hterm
+  have hadj : (fun n => c.1 n d) = (fun n => c.2.incident n d) := by
+    funext n; exact tsContainers_incident ops dels dn de c hc n d
+  have hb : ∃ F, Bounded (segChildren (fun n => c.2.incident n d) filt maxDepth Edge.other) F [⟨root, 0⟩] := by
+    rcases hterm with hmd | ⟨rk, hrk⟩
+    · exact ⟨maxDepth.toNat + 1, seg_bounded_depth _ filt maxDepth _ hmd maxDepth.toNat [⟨root, 0⟩] (by simp; omega)⟩
+    · exact ⟨rk root + 1, seg_bounded_rank _ filt maxDepth _ rk hrk (rk root) [⟨root, 0⟩] (Nat.le_refl _)⟩
+  obtain ⟨F, hF⟩ := hb
+  refine ⟨F, treeSize (segChildren (fun n => c.2.incident n d) filt maxDepth Edge.other) F [⟨root, 0⟩], ?_, ?_⟩
+  · intro F' hle
+    exact treeLeaves_stable_le _ _ hF hle
+  · intro fuel hfuel
+    unfold tsTraverse
+    rw [hadj, pickAt_true]
+    exact travLoop_root bfs _ segIsPath (segExceeded maxDepth) F [⟨root, 0⟩] hF fuel hfuel
+
+/-- `TSBFS` over the store and over every projection: under `Terminates` it completes for every sufficiently
+large fuel (explicit bound: the number of nodes of the walk tree), and the handler receives — as a multiset,
+i.e. each exactly as often as it occurs, hence once per walk — exactly the maximal filter-admitted walks within
+the depth bound enumerated naively from the edge list (`maxWalks`, stable in its own fuel from `F` on);
+the returned count is the number of reported walks that exceed the depth. -/
+theorem tsbfs_leaves_eq (ops : List Op) (dels dn de : List Nat) (d : Dir) (filt : Edge → Bool) (maxDepth : Int) (root : Nat) :
+    ∀ c ∈ tsContainers ops dels dn de, Terminates c.2 d filt maxDepth →
+      ∃ F fuel0,
+        (∀ F', F ≤ F' → maxWalks c.2 d filt maxDepth Edge.other F' [⟨root, 0⟩] = maxWalks c.2 d filt maxDepth Edge.other F [⟨root, 0⟩]) ∧
+        ∀ fuel, fuel0 ≤ fuel → ∃ out inc,
+          tsTraverse true true (fun n => c.1 n d) d filt maxDepth fuel root = some (out, inc) ∧
+          out.Perm (maxWalks c.2 d filt maxDepth Edge.other F [⟨root, 0⟩]) ∧
+          inc = (out.filter (segExceeded maxDepth)).length :=
+  ts_traverse_leaves_eq true ops dels dn de d filt maxDepth root
+
+/-- `TSDFS`: the same statement for the `PopBack` loop. -/
+theorem tsdfs_leaves_eq (ops : List Op) (dels dn de : List Nat) (d : Dir) (filt : Edge → Bool) (maxDepth : Int) (root : Nat) :
+    ∀ c ∈ tsContainers ops dels dn de, Terminates c.2 d filt maxDepth →
+      ∃ F fuel0,
+        (∀ F', F ≤ F' → maxWalks c.2 d filt maxDepth Edge.other F' [⟨root, 0⟩] = maxWalks c.2 d filt maxDepth Edge.other F [⟨root, 0⟩]) ∧
+        ∀ fuel, fuel0 ≤ fuel → ∃ out inc,
+          tsTraverse false true (fun n => c.1 n d) d filt maxDepth fuel root = some (out, inc) ∧
+          out.Perm (maxWalks c.2 d filt maxDepth Edge.other F [⟨root, 0⟩]) ∧
+          inc = (out.filter (segExceeded maxDepth)).length :=
+  ts_traverse_leaves_eq false ops dels dn de d filt maxDepth root
+
+/-- `TSStatelessBFS`: under `Terminates` (for the weighted filter) it completes, and the terminal handler receives
+exactly (as a multiset) the terminals `(end node, distance, weight product)` of the maximal admitted walks
+enumerated naively from the edge list (`maxTerms`); every reported distance is ≥ 1 and is the length of an
+admitted walk from the root to the reported node. -/
+theorem stateless_bfs_dist_eq (ops : List Op) (dels dn de : List Nat) (d : Dir) (wfilt : Edge → Option Nat) (maxDepth : Int) (root : Nat) :
+    ∀ c ∈ tsContainers ops dels dn de, Terminates c.2 d (fun e => (wfilt e).isSome) maxDepth →
+      ∃ F fuel0,
+        (∀ F', F ≤ F' → maxTerms c.2 d wfilt maxDepth F' ⟨root, 0, 0⟩ = maxTerms c.2 d wfilt maxDepth F ⟨root, 0, 0⟩) ∧
+        ∀ fuel, fuel0 ≤ fuel → ∃ out inc,
+          statelessBFS true (fun n => c.1 n d) d wfilt maxDepth fuel root = some (out, inc) ∧
+          out.Perm (maxTerms c.2 d wfilt maxDepth F ⟨root, 0, 0⟩) ∧
+          inc = (out.filter (ptExceeded maxDepth)).length ∧
+          ∀ t ∈ out, 1 ≤ t.dist ∧ t.node ∈ walkEnds (admittedEnds (fun n => c.2.incident n d) wfilt) root t.dist := by
+  intro c hc hterm
+  have hadj : (fun n => c.1 n d) = (fun n => c.2.incident n d) := by
+    funext n; exact tsContainers_incident ops dels dn de c hc n d
+  have hb : ∃ F, Bounded (ptChildren (fun n => c.2.incident n d) wfilt maxDepth Edge.other) F ⟨root, 0, 0⟩ := by
+    rcases hterm with hmd | ⟨rk, hrk⟩
+    · exact ⟨maxDepth.toNat + 2, pt_bounded_depth _ wfilt maxDepth _ hmd (maxDepth.toNat + 1) ⟨root, 0, 0⟩ (by simp)⟩
+    · exact ⟨rk root + 1, pt_bounded_rank _ wfilt maxDepth _ rk hrk (rk root) ⟨root, 0, 0⟩ (Nat.le_refl _)⟩
+  obtain ⟨F, hF⟩ := hb
+  refine ⟨F, treeSize (ptChildren (fun n => c.2.incident n d) wfilt maxDepth Edge.other) F ⟨root, 0, 0⟩, ?_, ?_⟩
+  · intro F' hle
+    exact treeLeaves_stable_le _ _ hF hle
+  · intro fuel hfuel
+    unfold statelessBFS
+    rw [hadj, pickAt_true]
+    obtain ⟨out, inc, h1, h2, h3⟩ := travLoop_root true _ ptIsPath (ptExceeded maxDepth) F ⟨root, 0, 0⟩ hF fuel hfuel
+    refine ⟨out, inc, h1, h2, h3, ?_⟩
+    intro t ht
+    have hmem := h2.mem_iff.mp ht
+    refine ⟨?_, ptLeaves_walk _ wfilt maxDepth root F ⟨root, 0, 0⟩ t (by simp [walkEnds_zero]) hmem⟩
+    have := treeLeaves_isPath _ ptIsPath F _ t hmem
+    simpa [ptIsPath] using this
+
+/-! ### NumEdges -/
+
+/-- `NumEdges` against the edge list, for every history, any tombstones and ANY deleted-id sets (ids that are not
+nodes or edges of the store included): the CSR digraph counts the distinct (start, end) pairs, the triple store
+every triple, a projection exactly the triples of the projected graph; without parallel edges CSR and store agree.
+Two known findings, stated precisely: the store's count ignores `DeleteEdge` (it is `|edges|` whatever `dels`), and
+`adjacencyMapDigraph.NumEdges` returns the NODE count. -/
+theorem numEdges_eq (ops : List Op) (dels dn de : List Nat) :
+    let g := G.ofOps ops
+    (Csr.ofOps ops).numEdges = g.pairs.length ∧
+    (tsOf ops dels).numEdges = g.edges.length ∧
+    Proj.numEdges ⟨tsOf ops dels, dn, de⟩ = (g.project dn de).edges.length ∧
+    ((g.edges.map (fun e => (e.start, e.stop))).Nodup → (Csr.ofOps ops).numEdges = (tsOf ops dels).numEdges) ∧
+    (AdjMap.build ops).numEdges = (AdjMap.build ops).numNodes := by
+  intro g
+  have rc := CsrB.rel_ofOps ops
+  have rt := TS.deleteAll_rel (TS.rel_build ops) dels
+  have h1 : (Csr.ofOps ops).numEdges = g.pairs.length := Csr.numEdges_spec rc
+  have h2 : (tsOf ops dels).numEdges = g.edges.length := TS.numEdges_spec rt
+  exact ⟨h1, h2, Proj.numEdges_spec rt dn de, fun hn => by rw [h1, h2, pairs_length_of_nodup hn], rfl⟩
+
+/-- KNOWN FINDING (C14:adjacencyMapDigraph.NumEdges:returns-node-count): edges 1→2, 1→3 — two edges, `NumEdges() = 3`. -/
+theorem adjmap_numEdges_refuted : ¬ ∀ ops, (AdjMap.build ops).numEdges = (G.ofOps ops).pairs.length := by
+  intro h
+  have := h [.edge 10 1 2, .edge 11 1 3]
+  revert this; decide
+
+/-- KNOWN FINDING (C14:triplestore.NumEdges:ignores-DeleteEdge): edge 10 deleted, `NumEdges() = 1`. -/
+theorem ts_numEdges_tombstone_refuted :
+    ¬ ∀ ops dels, (tsOf ops dels).numEdges = ((G.ofOps ops).dropEdges dels).edges.length := by
+  intro h
+  have := h [.edge 10 1 2] [10]
+  revert this; decide
+
+/-! ### Degrees / Dimensions -/
+
+/-- `Degrees` = number of `EachAdjacentNode` callbacks. The adjacency map, the triple store and — for outbound /
+inbound — the CSR digraph call back each neighbour once, so their degrees are the number of DISTINCT neighbours
+and agree. (CSR under `both` and projections call back once per incident edge: multiplicity, not judged.) -/
+theorem degrees_eq (ops : List Op) (v : Nat) (d : Dir) :
+    ((AdjMap.build ops).adjacent v d).Nodup ∧ ((TS.build ops).adjacent true v d).Nodup ∧
+    ((AdjMap.build ops).adjacent v d).length = ((TS.build ops).adjacent true v d).length ∧
+    (d ≠ .both → ((Csr.ofOps ops).adjacent v d).Nodup ∧
+      ((Csr.ofOps ops).adjacent v d).length = ((AdjMap.build ops).adjacent v d).length) := by
+  have na := AdjMap.adjacent_nodup (AdjMap.rel_build ops) v d
+  have nt := TS.adjacent_nodup true (TS.build ops) v d
+  refine ⟨na, nt, ?_, ?_⟩
+  · exact length_eq_of_nodup_mem na nt (fun x => (adjmap_adj_eq ops v d x).trans (TS.adjacent_build_spec ops v x d).symm)
+  · intro hd
+    have nc := Csr.adjacent_nodup (CsrB.rel_ofOps ops) v d hd
+    exact ⟨nc, length_eq_of_nodup_mem nc na (fun x => (csr_adj_eq ops v d x).trans (adjmap_adj_eq ops v d x).symm)⟩
+
+/-- `Dimensions(digraph, direction)` = (`NumNodes`, largest row) agrees across the adjacency map, the triple
+store and (outbound / inbound) the CSR digraph, although they enumerate their nodes in different orders. -/
+theorem dimensions_eq (ops : List Op) (d : Dir) :
+    let am := AdjMap.build ops
+    let ts := TS.build ops
+    let csr := Csr.ofOps ops
+    dimensions am.nodes am.numNodes (fun v => am.adjacent v d) = dimensions ts.nodes ts.numNodes (fun v => ts.adjacent true v d) ∧
+    (d ≠ .both → dimensions csr.nodes csr.numNodes (fun v => csr.adjacent v d) = dimensions am.nodes am.numNodes (fun v => am.adjacent v d)) := by
+  intro am ts csr
+  have hn := numNodes_eq ops
+  simp only [dimensions_eq_rowMax]
+  constructor
+  · congr 1
+    · exact hn.2.2.2.2.2.2.1.trans hn.2.2.2.2.2.2.2.1
+    · exact rowMax_congr (fun x => (hn.1.2 x).trans (hn.2.2.1.2 x).symm) (fun x _ => (degrees_eq ops x d).2.2.1)
+  · intro hd
+    congr 1
+    · exact hn.2.2.2.2.2.2.1.symm
+    · exact rowMax_congr (fun x => (hn.2.1.2 x).trans (hn.1.2 x).symm) (fun x _ => ((degrees_eq ops x d).2.2.2 hd).2)
+
 /-- C14 at full strength for a given version of the code: every container presents the ground truth in all
 three directions (triple store with any tombstones, every projection), node counts agree, Reach and BFSTree
 from every container are exact for all three directions, Normalize is an isomorphism, segments round-trip. -/
-def C14_full (fixed : Bool) : Prop :=
+def C14_for (fixed : Bool) : Prop :=
   (∀ ops, Presents (AdjMap.build ops).adjacent (G.ofOps ops) ∧ Presents (Csr.ofOps ops).adjacent (G.ofOps ops)) ∧
   TsPresents fixed ∧ ProjPresents fixed ∧
   (∀ ops, (AdjMap.build ops).numNodes = (Csr.ofOps ops).numNodes ∧ (Csr.ofOps ops).numNodes = (TS.build ops).numNodes ∧
@@ -255,26 +464,31 @@ def C14_full (fixed : Bool) : Prop :=
   (∀ (s : List Seg) (hne : s ≠ []), (∀ x ∈ s, x.node < 2 ^ 64 ∧ x.edge < 2 ^ 64) → (s.getLast hne).edge = 0 →
     unmarshal (marshal s) = some s)
 
-/-- the current code does NOT satisfy C14 (F2: `DirectionBoth` in the triple store and its projections). -/
-theorem c14_full_refuted : ¬ C14_full false :=
-  fun h => ts_adj_both_refuted h.2.1
+/-- C14 at full strength, about the code AS IT IS. (Stores carrying `DeleteEdge` tombstones are covered for the
+store itself; their projections, `BFSTreeFile.ReadEach` and `SerializedSegment.ToSegment` are the remaining known
+findings, stated precisely in `proj_tombstone_partial/_refuted`, `toSegment_panics`; TSBFS/TSDFS/TSStatelessBFS
+have their own theorems below.) -/
+def C14_full : Prop := C14_for true
 
-/-- with the repair of hooks/C14-fix.patch the whole property holds. -/
-theorem c14_fixed : C14_full true := by
-  refine ⟨fun ops => ⟨adjmap_adj_eq ops, csr_adj_eq ops⟩, ts_adj_eq_fixed, proj_adj_eq_fixed, ?_, ?_, ?_, ?_⟩
+theorem c14 : C14_full := by
+  refine ⟨fun ops => ⟨adjmap_adj_eq ops, csr_adj_eq ops⟩, ts_adj_eq, proj_adj_eq, ?_, ?_, ?_, ?_⟩
   · intro ops
     have h := numNodes_eq ops
     exact ⟨h.2.2.2.2.2.2.1, h.2.2.2.2.2.2.2.1, h.1⟩
   · intro ops dels dn de d s c hc
-    exact ⟨reach_eq true ops dels dn de d (Or.inr rfl) s c hc, bfsTree_dist_eq true ops dels dn de d (Or.inr rfl) s c hc⟩
+    exact ⟨reach_eq ops dels dn de d s c hc, bfsTree_dist_eq ops dels dn de d s c hc⟩
   · intro ops i v d j
     have h := normalize_iso ops
     exact ⟨fun hi => h.1.2.2 i v hi d j, fun hi => h.2.2.2 i v hi d j⟩
   · intro s hne h64 hroot
     exact (segment_roundtrip s hne h64 hroot).1
 
-/-- what holds of the code AS IT IS: everything of `C14_full` except `both` on the triple store / projections. -/
-theorem c14_partial :
+/-- the code before 789c790 did NOT satisfy C14 (F2: `DirectionBoth` in the triple store and its projections) … -/
+theorem c14_refuted_old : ¬ C14_for false :=
+  fun h => ts_adj_both_refuted_old h.2.1
+
+/-- … it satisfied everything of `C14_for` except `both` on the triple store / projections. -/
+theorem c14_old_partial :
     (∀ ops, Presents (AdjMap.build ops).adjacent (G.ofOps ops) ∧ Presents (Csr.ofOps ops).adjacent (G.ofOps ops)) ∧
     (∀ ops dels dn de v d, d ≠ .both →
       SetEq ((tsOf ops dels).adjacent false v d) (((G.ofOps ops).dropEdges dels).adj v d) ∧
@@ -285,9 +499,15 @@ theorem c14_partial :
         (∀ w, (∃ t ∈ ts, t.node = w) ↔ Reachable (fun v => c.2.1.adj v d) s w) ∧
         (∀ t ∈ ts, IsDist (fun v => c.2.1.adj v d) s t.node t.dist))) :=
   ⟨fun ops => ⟨adjmap_adj_eq ops, csr_adj_eq ops⟩,
-   fun ops dels dn de v d hd => ⟨ts_adj_eq_partial ops dels v d hd, proj_adj_eq_partial ops dn de v d hd⟩,
+   fun ops dels dn de v d hd => ⟨ts_adj_eq_old_partial ops dels v d hd, proj_adj_eq_old_partial ops dn de v d hd⟩,
    fun ops dels dn de d s hd c hc =>
-     ⟨reach_eq false ops dels dn de d (Or.inl hd) s c hc, bfsTree_dist_eq false ops dels dn de d (Or.inl hd) s c hc⟩⟩
+     ⟨reach_eq_gen false ops dels dn de d (Or.inl hd) s c hc, bfsTree_dist_eq_gen false ops dels dn de d (Or.inl hd) s c hc⟩⟩
+
+/-- KNOWN FINDING (C14:SerializedSegment.ToSegment:Edges-index-minus-one-panic), precise statement: `ToSegment`
+panics (`none`) on EVERY serialized segment that has a node and an edge; it only works for edge-less input,
+where it keeps the last node. -/
+theorem toSegment_panics (n : Nat) (ns : List Nat) (e : Nat) (es : List Nat) : toSegment (n :: ns) (e :: es) = none := rfl
+theorem toSegment_partial (n : Nat) : toSegment [n] [] = some [⟨n, 0⟩] := rfl
 
 /-! ### Non-vacuity: the hypotheses are satisfiable on non-trivial states, and the models are not degenerate.
 Graph: isolated node 9, self loop on 5, parallel edges 7→3 (twice), antiparallel 3→7, chain 7→3→5, sparse id 2^40. -/
@@ -310,7 +530,7 @@ example : bfsTree (fun v => (Csr.ofOps demoOps).adjacent v .out) 6 7 =
     some [⟨3, 1⟩, ⟨7, 2⟩, ⟨5, 2⟩, ⟨1099511627776, 3⟩] := by decide
 example : (AdjMap.build demoOps).normalize.1 = [3, 5, 7, 9, 1099511627776] ∧
           (AdjMap.build demoOps).normalize.2.adjacent 0 .out = [1, 2] := by decide
--- hypotheses of `reach_eq` / `bfsTree_dist_eq` / `c14_partial`: `d ≠ both ∨ fixed` is satisfiable both ways
+-- hypotheses of `reach_eq_gen` / `bfsTree_dist_eq_gen` / `c14_old_partial`: `d ≠ both ∨ fixed` is satisfiable both ways
 example : (Dir.out ≠ Dir.both ∨ false = true) ∧ (Dir.both ≠ Dir.both ∨ true = true) := by decide
 -- hypotheses of `segment_roundtrip` on a 3-node chain with ids ≥ 2^32 and a byte 0x0A
 example : unmarshal (marshal [⟨10, 4294967297⟩, ⟨18446744073709551615, 7⟩, ⟨1, 0⟩]) =
@@ -320,6 +540,27 @@ example : marshal [⟨258, 0⟩] = [2, 1, 0, 0, 0, 0, 0, 0] := by decide
 example : unmarshal (marshal [⟨1, 5⟩]) = some [⟨1, 0⟩] := by decide
 -- F3: `SerializedSegment.ToSegment` as it is panics (`none`) on every input with an edge
 example : toSegment [1, 2] [7] = none ∧ toSegment [1] [] = some [⟨1, 0⟩] := by decide
+-- `Terminates`: both disjuncts are satisfiable — a depth bound, and a rank for the acyclic chain 7→3→5→2^40 …
+example : Terminates (G.ofOps demoOps) .out (fun _ => true) 2 := Or.inl (by decide)
+example : Terminates (G.ofOps [.edge 1 7 3, .edge 2 3 5]) .out (fun _ => true) 0 :=
+  Or.inr ⟨fun n => if n = 7 then 2 else if n = 3 then 1 else 0, by
+    intro n e he _
+    simp [G.ofOps, G.step, G.incident] at he
+    rcases he with ⟨rfl | rfl, h⟩ <;> subst h <;> simp [Edge.other]⟩
+-- … and the traversals are not degenerate: TSBFS / TSDFS order, a depth-exceeded walk, stateless weights
+example : tsTraverse true true (fun n => (tsOf demoOps []).adjacentEdges n .out) .out (fun _ => true) 2 20 7 =
+    some ([[⟨7, 102⟩, ⟨3, 100⟩, ⟨7, 0⟩], [⟨5, 104⟩, ⟨3, 100⟩, ⟨7, 0⟩], [⟨7, 102⟩, ⟨3, 101⟩, ⟨7, 0⟩], [⟨5, 104⟩, ⟨3, 101⟩, ⟨7, 0⟩]], 4) := by decide
+example : (tsTraverse false true (fun n => (tsOf demoOps []).adjacentEdges n .out) .out (fun _ => true) 2 20 7).map (·.1.head?) = some (some [⟨5, 104⟩, ⟨3, 101⟩, ⟨7, 0⟩]) := by decide
+example : maxWalks (G.ofOps demoOps) .out (fun _ => true) 2 Edge.other 3 [⟨7, 0⟩] =
+    [[⟨7, 102⟩, ⟨3, 100⟩, ⟨7, 0⟩], [⟨5, 104⟩, ⟨3, 100⟩, ⟨7, 0⟩], [⟨7, 102⟩, ⟨3, 101⟩, ⟨7, 0⟩], [⟨5, 104⟩, ⟨3, 101⟩, ⟨7, 0⟩]] := by decide
+example : statelessBFS true (fun n => (tsOf demoOps []).adjacentEdges n .out) .out (fun e => some (1 + e.id % 3)) 1 20 3 =
+    some ([⟨3, 2, 2⟩, ⟨3, 2, 3⟩, ⟨5, 2, 6⟩, ⟨1099511627776, 2, 3⟩], 4) := by decide
+-- a filtered cycle with maxDepth ≤ 0 (the excluded point) exhausts any fuel in the model
+example : tsTraverse true true (fun n => (tsOf demoOps []).adjacentEdges n .out) .out (fun _ => true) 0 50 7 = none := by decide
+example : (Csr.ofOps demoOps).numEdges = 5 ∧ (tsOf demoOps [104]).numEdges = 6 ∧
+          Proj.numEdges ⟨tsOf demoOps [], [5, 77], [100, 999]⟩ = 2 ∧ (AdjMap.build demoOps).numEdges = 5 := by decide
+example : dimensions (AdjMap.build demoOps).nodes (AdjMap.build demoOps).numNodes (fun v => (AdjMap.build demoOps).adjacent v .both) = (5, 3) ∧
+          dimensions (Csr.ofOps demoOps).nodes (Csr.ofOps demoOps).numNodes (fun v => (Csr.ofOps demoOps).adjacent v .both) = (5, 4) := by decide
 -- `IsDist` is not vacuous: 5 is at distance 2 from 7, and not at distance 1
 example : (5 ∈ walkEnds (fun v => (G.ofOps demoOps).adj v .out) 7 2) ∧ ¬ (5 ∈ walkEnds (fun v => (G.ofOps demoOps).adj v .out) 7 1) := by decide
 
